@@ -4,10 +4,10 @@ package props
 import (
 	"encoding/json"
 
-	"github.com/Azbesciak/RealDecisionMaker/lib/model"
-	"rdmverif/svc"
 	"fmt"
+	"github.com/Azbesciak/RealDecisionMaker/lib/model"
 	"math"
+	"rdmverif/svc"
 	"sort"
 
 	. "rdmverif/engine"
